@@ -71,12 +71,14 @@ class State:
         self.calls = []
         self.status = None   # None | 'return' | 'raise'
         self.value = None
+        self.assumed = []    # (test text, outcome) of the undecidable `if` tests this path went through
 
     def clone(self):
         s = State()
         s.env = dict(self.env)
         s.heap = {k: [v[0], (list(v[1]) if v[0] in ('list', 'tuple') else dict(v[1])), v[2]] for k, v in self.heap.items()}
         s.calls = list(self.calls)
+        s.assumed = list(self.assumed)
         return s
 
 
@@ -662,6 +664,9 @@ class Evaluator:
             if t is False:
                 return self.block(node.orelse, [st])
             a, b = st, st.clone()
+            text = ' '.join(unparse(node.test).split())
+            a.assumed.append((text, True))
+            b.assumed.append((text, False))
             return self.block(node.body, [a]) + self.block(node.orelse, [b])
         if isinstance(node, ast.Return):
             st.value = self.ev(node.value, st)
@@ -792,6 +797,7 @@ class Pipeline:
                     c.index = i
                 seqs.append(calls)
                 rets.append(s.value if s.status == 'return' else None)
+                self.__dict__.setdefault('assumed', {}).setdefault(value, []).append(list(s.assumed))
             self.__dict__.setdefault('returned', {})[value] = rets
             if not seqs:
                 raise AnalysisError('pipeline of {}: no path returns'.format(entry))
@@ -801,6 +807,11 @@ class Pipeline:
         for value in (False, True):
             for calls in self.paths[value]:
                 yield value, calls
+
+    def all_paths_with_assumptions(self):
+        for value in (False, True):
+            for calls, asm in zip(self.paths[value], self.assumed[value]):
+                yield value, calls, asm
 
     def all_paths_with_result(self):
         for value in (False, True):
